@@ -184,11 +184,8 @@ Definition set_no_checks (e : env) (n : name) (v : cval) (create : bool) : env :
 Definition create_or_set (e : env) (n : name) (v : cval) (create : bool) : env * res cval :=
   if constant_name n then
     match env_get e n with
-    | Some (e1, o) =>
-      match deref e1 o with
-      | Some old => if cval_eqb old v then (set_no_checks e1 n v create, Ok v) else (e1, Err)
-      | None => (e1, Stuck)
-      end
+    | Some (e1, OVal old) => if cval_eqb old v then (set_no_checks e1 n v create, Ok v) else (e1, Err)
+    | Some (e1, ORef _ _) => (e1, Err)   (* Equals(old, val) with old a Reference: the types differ, never equal *)
     | None => (set_no_checks e n v create, Ok v)
     end
   else (set_no_checks e n v create, Ok v).
